@@ -43,6 +43,7 @@ RULE = (
     "perturbed run, or a fault run; distinct by hash of (dataset id, program, argv tail, injection)"
 )
 LEVEL_TEXT += ' Every (--cores 2..16, 1..48 loci; 1..96 in the thorough tier) pair was run in-process with the real pool, queue and forked writer (each locus exactly once, records equal to the single-core run); the haplotype files carry masked references and zero priors and the order / subset / history comparisons are repeated under --filter-input-haplotypes and --prior-frequencies.'
+LEVEL_TEXT += ' Session 4: the interpreter hash seed is not an input - the multi-core comparison runs use different PYTHONHASHSEED values, and a hashseed kind repeats each program under 4-8 hash seeds on inputs producing exact posterior ties (a read-less sample, 3 retained steps per chain).'
 ASSUMPTIONS = ["--mcmc-seed fixed per run", "the haplotype VCF must stay coordinate-sorted, so only subsets (not permutations) of its records are used"]
 PROGRAMS = ["assemble", "call", "call-exact", "call-pedigree"]
 MCMC = ["--mcmc-steps", "120", "--mcmc-burn", "60"]
